@@ -6,6 +6,7 @@ lengths (u16), data slices, entry lists, request ids (u16), both build profiles 
 every sink capacity; nothing is bounded.  Helper lemmas: `Proofs/C09.lean`.
 -/
 import CamVerif.Proofs.C09
+import CamVerif.Gen.CmdConsts
 namespace CamVerif.C09
 open CamVerif CamVerif.Cmd
 open CamVerif.Spec.GenCP (decodeCmd CmdFields CmdBody slice uintAt)
@@ -366,6 +367,31 @@ theorem sink_cmdLen (p : Profile) (c : Cmd) (id : Nat) (hc : Constructible p c) 
     c.serializeSink id c.cmdLen = .ok (c.serialize id) := by
   have h := (len_agree p c id hc).1
   exact (sink_exact c id c.cmdLen).2.2.1 (by omega)
+
+/-! ## Tie (G): constants regenerated from `cmd.rs` on every run -/
+
+/-- **gen_consts_agree**: the magic, REQUEST_ACK flag, the four command ids, the header
+and minimum acknowledge lengths that `tools/gen_cmd_consts.py` re-reads from the current
+`cmd.rs` are the ones the model serializes *and* the ones the reference layout
+(`Spec/GenCP.lean`) prescribes.  A source edit of any of them fails this obligation. -/
+theorem gen_consts_agree :
+    PREFIX_MAGIC = Gen.CmdConsts.PREFIX_MAGIC ∧
+    Gen.CmdConsts.PREFIX_MAGIC = Spec.GenCP.CMD_MAGIC ∧
+    Cmd.FLAG_REQUEST_ACK = Gen.CmdConsts.FLAG_REQUEST_ACK ∧
+    Gen.CmdConsts.FLAG_REQUEST_ACK = Spec.GenCP.FLAG_REQUEST_ACK ∧
+    (Cmd.readMem ⟨0, 0⟩).kindId = Gen.CmdConsts.KIND_ReadMem ∧
+    (Cmd.writeMem ⟨0, [], 0, 8⟩).kindId = Gen.CmdConsts.KIND_WriteMem ∧
+    (Cmd.readMemStacked ⟨[], 0, 0⟩).kindId = Gen.CmdConsts.KIND_ReadMemStacked ∧
+    (Cmd.writeMemStacked ⟨[], 0, 0⟩).kindId = Gen.CmdConsts.KIND_WriteMemStacked ∧
+    [Gen.CmdConsts.KIND_ReadMem, Gen.CmdConsts.KIND_WriteMem, Gen.CmdConsts.KIND_ReadMemStacked,
+      Gen.CmdConsts.KIND_WriteMemStacked] = [0x0800, 0x0802, 0x0806, 0x0808] ∧
+    ACK_HEADER_LENGTH = Gen.CmdConsts.ACK_HEADER_LENGTH ∧
+    Gen.CmdConsts.ACK_HEADER_LENGTH = Spec.GenCP.ACK_HEADER_LEN ∧
+    MINIMUM_ACK_SCD_LENGTH = Gen.CmdConsts.MINIMUM_ACK_SCD_LENGTH ∧
+    Gen.CmdConsts.MINIMUM_ACK_SCD_LENGTH = Spec.GenCP.PENDING_ACK_SCD_LEN ∧
+    CCD_LEN = Gen.CmdConsts.CCD_LEN ∧ HEADER_LEN = Gen.CmdConsts.HEADER_LEN ∧
+    (Cmd.readMem ⟨0, 0⟩).scdLen = Gen.CmdConsts.READMEM_SCD_LEN ∧
+    (Cmd.writeMem ⟨0, [], 0, 8⟩).ackScdLen = Gen.CmdConsts.WRITEMEM_ACK_SCD_LEN := by decide
 
 /-! ## Non-vacuity: concrete constructible commands of every kind, their bytes, and
 the decoder's answer; a refused construction at the 16-bit boundary. -/
